@@ -164,7 +164,7 @@ func (r *Report) Finish(cov Coverage, assumptions []string) {
 	_ = os.MkdirAll(filepath.Join(Root, "replays"), 0o755)
 	_ = os.MkdirAll(filepath.Join(Root, "evidence"), 0o755)
 	newCount := 0
-	var knownHit, fresh []string
+	knownHit, fresh := []string{}, []string{}
 	sigs := append([]string(nil), r.order...)
 	sort.Strings(sigs)
 	for _, sig := range sigs {
